@@ -9,11 +9,11 @@ from hdrcheck import line_findings, U
 BOUNDARY = b"BOUNDARY-msgfull-0001"
 TOP = ["From", "Sender", "To", "Subject", "Message-ID", "In-Reply-To", "References", "User-Agent", "Comments", "X-Custom", "Date", "MIME-Version", "Content-Type"]
 
-TEXTS = ["plain", "", " ", "two  spaces ", "é", "naïve café  ☕", "a\r\nBcc: evil@x.example", "x\r\n\r\nbody", "a\nb", "a\rb", "tab\there", "=?utf-8?b?QQ==?=", "=?", "a=?b?=c",
+TEXTS = ["plain", "", " ", "two  spaces ", "é", "naïve café  ☕", "a\r\nBcc: evil@x.example", "x\r\n\r\nbody", "a\nb", "a\rb", "tab\there", "=?utf-8?b?QQ==?=", "Fwd: =?UTF-8?B?SGVsbG8=?= there", "=?ISO-8859-1?Q?caf=E9?=", "=?", "a=?b?=c",
          "w" * 70, "w" * 80, "é" * 40, "😀" * 25, "a " * 50, "x" * 60 + " " + "é" * 10, "\0", "a\x07b", "colon: inside", "<angle@brackets>", '"quoted" \\ back', "(comment)", "semi;colon=1",
          "long " + "word " * 40 + "end", "trailing   ", "   leading"]
 NAMES = ["Kayo", "Doe, John", "é", "Dr. Müller", "Müller, Jörg", "é (x) & ü", 'q"é', "ü@ö", "名前.", "a  b", 'q"x', "back\\slash", " pad ", "", "a\tb", "<x>", "a@b", "=?utf-8?b?QQ==?=", "x" * 90, "very long name " * 8, "😀" * 30, "(c)", "semi;colon"]
-FILES = ["a.txt", "fïle name.txt", "x" * 50 + ".bin", "é" * 30, 'q"uote.txt', "back\\slash", "semi;colon.txt", "per%cent", "a\r\nb", "tab\there.txt", "", " ", "'apos'", "star*.txt", "😀.png", "a b" * 30]
+FILES = ["a.txt", "Invoice 01/2024.pdf", "a/b\\c.txt", "/etc/passwd", "dir/", "..", "C:\\x\\y.doc", "fïle name.txt", "x" * 50 + ".bin", "é" * 30, 'q"uote.txt', "back\\slash", "semi;colon.txt", "per%cent", "a\r\nb", "tab\there.txt", "", " ", "'apos'", "star*.txt", "😀.png", "a b" * 30]
 CIDS = ["cid@x", "é@x", "a b", "x" * 100, "a\r\nX-Evil: 1", "<nested>", ""]
 
 
